@@ -13,6 +13,8 @@ cd $V
 for S in seeded/*/; do
   name=$(basename $S)
   ids=$(python3 -c "import json,os;f='$V/$S/meta.json';print(' '.join(json.load(open(f)).get('check_with',['$name'[:3]]) if os.path.exists(f) else ['$name'[:3]]))")
+  old=$(python3 -c "import json,os;f='$V/$S/meta.json';m=json.load(open(f)) if os.path.exists(f) else {};print(m.get('applies_to_commit') or '')")
+  if [ -n "$old" ]; then echo "$name APPLIES-ONLY-TO $old (not re-created against the current tree, see meta.json)"; continue; fi
   if ! git -C $R apply "$V/$S/patch.diff" 2>/dev/null; then
     if ! git -C $R apply -3 "$V/$S/patch.diff" 2>/dev/null; then echo "$name PATCH-DOES-NOT-APPLY"; git -C $R reset -q; git -C $R checkout -- . ; continue; fi
   fi
